@@ -121,6 +121,39 @@ fn run<T: Scalar>(spec: &Spec, xs: &[f64], ys: &[f64], rng: &mut Rng, out: &mut 
             }
         }
     }
+    // --- other instances alive at the same time (same window, other parameters, other scalar) ------
+    // must not influence a view: shared tables / caches keyed too coarsely show here
+    {
+        let n = spec_n(spec);
+        let mut decoys64: Vec<Dyn<f64>> = vec![];
+        let mut decoys32: Vec<Dyn<f32>> = vec![];
+        for k in decoy_kinds(n) {
+            if let Ok(mut d) = crate::report::guarded(|| build_plain::<f64>(&Spec::leaf(k))) {
+                for x in xs.iter().take(3) {
+                    d.update(*x);
+                }
+                decoys64.push(d);
+            }
+            if let Ok(mut d) = crate::report::guarded(|| build_plain::<f32>(&Spec::leaf(k))) {
+                for x in xs.iter().take(3) {
+                    d.update(*x as f32);
+                }
+                decoys32.push(d);
+            }
+        }
+        let mut c = build_plain::<T>(spec);
+        for i in 0..len {
+            c.update(T::of(xs[i]));
+            let r = c.last();
+            out.cell("clause/twin-with-other-instances-alive", 1);
+            if !same_opt(r, reference[i]) {
+                fail(out, spec, "twin", i, r, reference[i], xs, "instance built while views with the same window but other parameters / another scalar were alive vs instance built alone");
+                return;
+            }
+        }
+        drop(decoys64);
+        drop(decoys32);
+    }
     // --- clone independence -----------------------------------------------------------------
     if !spec.contains_add() {
         // a third of the clones is taken while the view is still warming up (or fresh)
@@ -296,13 +329,13 @@ impl Monitor for C17 {
         for b in BINS {
             names.push(format!("view/{:?}", b));
         }
-        for c in ["clause/twin", "clause/last-pure", "clause/clone", "clause/twin-other-thread"] {
+        for c in ["clause/twin", "clause/last-pure", "clause/clone", "clause/twin-other-thread", "clause/twin-with-other-instances-alive"] {
             names.push(c.into());
         }
         names
     }
     fn rule(&self) -> String {
-        "trial = one view or random chain (depth<=3) and one seeded stream: (1) instance A queried with 0..3 extra last() calls per step vs twin B queried once, and an instance polled at only a third of the steps vs B, (2) clone taken at a random step, clone fed a different continuation (three interleavings) while the original must keep matching a never-cloned twin, clone-of-clone fed the same continuation must match too, diverged clone must equal a fresh instance with the same total history, (3) a twin driven concurrently on another thread; all comparisons to_bits. distinct = distinct (tree, input hash)".into()
+        "trial = one view or random chain (depth<=3) and one seeded stream: (1) instance A queried with 0..3 extra last() calls per step vs twin B queried once, and an instance polled at only a third of the steps vs B, (2) clone taken at a random step, clone fed a different continuation (three interleavings) while the original must keep matching a never-cloned twin, clone-of-clone fed the same continuation must match too, diverged clone must equal a fresh instance with the same total history, (3) a twin driven concurrently on another thread, (4) a twin built and driven while thirteen views with the same window length but other secondary parameters, in f64 and f32, are alive on the same thread; all comparisons to_bits. distinct = distinct (tree, input hash)".into()
     }
     fn assumptions(&self) -> Vec<String> {
         vec!["Add does not derive Clone: the clone clause is vacuous for trees containing Add (counted)".into()]
@@ -310,6 +343,25 @@ impl Monitor for C17 {
     fn design_ref(&self) -> &'static str {
         "DESIGN.md 3/C17"
     }
+}
+
+/// views with the same window length as the view under test but other secondary parameters
+fn decoy_kinds(n: usize) -> Vec<Kind> {
+    vec![
+        Kind::AlmaCustom(n, 2.0, 0.5),
+        Kind::AlmaCustom(n, 10.0, 0.0),
+        Kind::Alma(n),
+        Kind::EmaAlpha(n, 0.5),
+        Kind::Ema(n),
+        Kind::LagFilter(0.25),
+        Kind::LagFilter(0.9375),
+        Kind::Roofing(n.max(2), 3),
+        Kind::Roofing(n.max(2), 9),
+        Kind::SuperSmoother(n),
+        Kind::Cyber(n),
+        Kind::Gte(-1.0),
+        Kind::Lte(3.0),
+    ]
 }
 
 pub fn spec_n(s: &Spec) -> usize {
